@@ -19,9 +19,9 @@ class VLoop(asyncio.BaseEventLoop):
         super().__init__()
         self._vt = 0.0
         self.errors = []
-        self.parked = []          # (progress stamp, future) for sleep(0) spinners
-        self.progress = 0         # counts iterations in which a non-spinner handle ran
-        self._spin_handles = 0
+        self.spinners = {}        # task -> True while suspended in a sleep(0) spin
+        self.progress = 0         # counts env events + iterations in which a non-spinner handle ran
+        self.spin_seen = 0        # progress value when the spinners last re-evaluated
         self.iterations = 0
         self.set_exception_handler(self._on_error)
 
@@ -38,22 +38,30 @@ class VLoop(asyncio.BaseEventLoop):
     def _process_events(self, ev):
         pass
 
-    # --- spinner parking (map_async._wait_for_work_slot) ---------------------------
-    def park(self):
-        f = self.create_future()
-        self.parked.append((self.progress, f))
-        return f
-
-    def _releasable(self):
-        return [pf for pf in self.parked if pf[0] < self.progress]
+    # --- spinners (map_async._wait_for_work_slot: `while full: await asyncio.sleep(0)`) ------
+    # A spinning task keeps exactly one step handle in the ready queue, in its true
+    # position (faithful to asyncio: no reordering against other handles).  The queue
+    # counts as idle when it holds nothing but spinner steps *and* the spinners have
+    # already re-evaluated their condition since the last change: re-evaluating again
+    # would give the same answer, so not running them is sound, and counting their own
+    # wake-ups as progress would spin forever.
+    def spin(self):
+        return _Spin(self)
 
     def note_progress(self):
-        """an environment event happened: parked spinners may re-evaluate"""
+        """an environment event happened: spinners must re-evaluate once"""
         self.progress += 1
+
+    def _live_ready(self):
+        return sum(1 for h in self._ready if not h._cancelled)
 
     # --- explicit stepping ---------------------------------------------------------
     def has_ready(self):
-        return bool(self._ready) or bool(self._releasable())
+        n = self._live_ready()
+        ns = len(self.spinners)
+        if n > ns:
+            return True
+        return ns > 0 and self.spin_seen < self.progress
 
     def due(self):
         return any((not h._cancelled) and h._when <= self._vt for h in self._scheduled)
@@ -65,13 +73,6 @@ class VLoop(asyncio.BaseEventLoop):
     def run_iteration(self):
         """One faithful asyncio iteration: move due timers to the ready queue,
         run exactly the handles that were ready at the start."""
-        rel = self._releasable()
-        if rel:
-            relset = set(id(f) for _, f in rel)
-            self.parked = [pf for pf in self.parked if id(pf[1]) not in relset]
-            for _, f in rel:
-                if not f.done():
-                    f.set_result(None)
         sched = self._scheduled
         while sched and sched[0]._cancelled:
             h = heapq.heappop(sched)
@@ -82,16 +83,15 @@ class VLoop(asyncio.BaseEventLoop):
             if not h._cancelled:
                 self._ready.append(h)
         n = len(self._ready)
-        nrel = len(rel)
+        live = self._live_ready()
+        nspin = len(self.spinners)
+        self.spin_seen = self.progress
         for i in range(n):
             h = self._ready.popleft()
             if h._cancelled:
                 continue
             h._run()
-        # Each released spinner contributes exactly one wake-up handle.  Only handles
-        # beyond those count as progress: re-evaluating a spin condition when nothing
-        # else ran gives the same answer, and counting it would spin forever.
-        if n > nrel:
+        if live > nspin:
             self.progress += 1
         self.iterations += 1
 
@@ -133,8 +133,24 @@ class _AsyncioProxy:
 
     def sleep(self, d, result=None):
         if d == 0:
-            return self._loop.park()
+            return self._loop.spin()
         return asyncio.sleep(d, result)
+
+
+class _Spin:
+    """awaitable equivalent to asyncio.sleep(0) (bare yield) that tells the loop the
+    current task is spinning while it is suspended"""
+
+    def __init__(self, loop):
+        self.loop = loop
+
+    def __await__(self):
+        t = asyncio.current_task(self.loop)
+        self.loop.spinners[t] = True
+        try:
+            yield
+        finally:
+            self.loop.spinners.pop(t, None)
 
 
 class _LogTap(logging.Handler):
@@ -211,18 +227,29 @@ class Env:
         for lg, prop, handlers, level in self._loggers:
             lg.handlers = handlers
             lg.propagate = prop
-        events._set_running_loop(None)
-        IOLoop._ioloop_for_asyncio.pop(self.loop, None)
-        asyncio.set_event_loop(None)
-        # drop pending tasks without "Task was destroyed but it is pending" noise
+        # wind down: cancel every pending task and let the cancellations run, so that
+        # nothing is finalised later against a dead loop ("Task was destroyed ...")
         self.loop.set_exception_handler(lambda l, c: None)
         try:
+            for _ in range(5):
+                tasks = [t for t in asyncio.all_tasks(self.loop) if not t.done()]
+                if not tasks:
+                    break
+                for t in tasks:
+                    t.cancel()
+                for _ in range(20):
+                    if not self.loop._ready:
+                        break
+                    self.loop.run_iteration()
             for h in list(self.loop._ready):
                 h.cancel()
             self.loop._ready.clear()
             self.loop._scheduled.clear()
         except Exception:
             pass
+        events._set_running_loop(None)
+        IOLoop._ioloop_for_asyncio.pop(self.loop, None)
+        asyncio.set_event_loop(None)
         try:
             from streamz.sinks import _global_sinks
             _global_sinks.clear()
